@@ -56,8 +56,11 @@ MStep(pk, n, m, e) ==
          THEN [m EXCEPT !.stk = Append(@, [h |-> e.h, inNext |-> FALSE]), !.lastp1 = @ + 1, !.pend = "body"]
          ELSE Bad(m, "enter out of order / twice / after stop")
     [] e.e = "write" ->
+         \* the handler touched the response: WriteHeader(code), or a body write / flush (code = 200, the implicit
+         \* status; b = the bytes of a body write, "" for none).  Whatever the form, the response counts as written.
          IF ~m.pan /\ d > 0 /\ m.stk[d].h = e.h /\ m.pend = "body"
-         THEN [m EXCEPT !.st = TRUE, !.code = IF m.st THEN @ ELSE e.code] ELSE Bad(m, "write outside its handler")
+         THEN [m EXCEPT !.st = TRUE, !.code = IF m.st THEN @ ELSE e.code, !.body = IF e.b # "" THEN Append(@, e.b) ELSE @]
+         ELSE Bad(m, "write outside its handler")
     [] e.e = "setrh" ->
          \* the handler mapped a ReturnHandler into the request scope: it replaces the table from now on
          IF ~m.pan /\ d > 0 /\ m.stk[d].h = e.h /\ m.pend = "body" THEN [m EXCEPT !.rh = TRUE] ELSE Bad(m, "setrh outside its handler")
